@@ -9,8 +9,28 @@ use rust_rule_engine::rete::{ActionResult, ActionResults, AlphaNode, FactHandle,
 use serde_json::{json, Value};
 use std::sync::{Arc, Mutex};
 
-const RULES: [(&str, &str, &str, i64, bool); 4] =
-    [("r1", "T1", ">", 1, true), ("r2", "T1", "<=", 1, true), ("r3", "T2", "==", 2, true), ("r4", "T1", ">", 0, false)];
+const RULES: [(&str, &str, &str, i64, bool); 6] =
+    [("r1", "T1", ">", 1, true), ("r2", "T1", "<=", 1, true), ("r3", "T2", "==", 2, true), ("r4", "T1", ">", 0, false),
+     ("r5", "T1", ">=", 2, true), ("r6", "T1", "<", 3, true)];
+
+/// the field `a` is reported in HALVES (2 * value), so that the float values 1.0 / 2.0 / 2.5 stay integers in the trace
+fn halves(v: Option<&rust_rule_engine::rete::FactValue>) -> i64 {
+    v.and_then(|x| x.as_number()).map(|n| (n * 2.0).round() as i64).unwrap_or(-99)
+}
+/// a value for an inserted / updated fact: integers for every type, floats as well for T1 (whose rules use ordering operators only)
+fn gen_a(rng: &mut Rng, ty: &str) -> (rust_rule_engine::rete::FactValue, i64) {
+    use rust_rule_engine::rete::FactValue as FV;
+    if ty == "T1" && rng.chance(1, 3) {
+        let f = [1.0f64, 2.0, 2.5][rng.below(3)];
+        (FV::Float(f), (f * 2.0) as i64)
+    } else if ty == "T1" {
+        let i = [0i64, 1, 2, 3][rng.below(4)];
+        (FV::Integer(i), 2 * i)
+    } else {
+        let i = [0i64, 2, 3][rng.below(3)];
+        (FV::Integer(i), 2 * i)
+    }
+}
 const TYPES: [&str; 3] = ["T1", "T2", "T3"];
 
 fn views(e: &IncrementalEngine, issued: &[u64]) -> Value {
@@ -33,7 +53,7 @@ fn views(e: &IncrementalEngine, issued: &[u64]) -> Value {
     handles.sort();
     let data: Vec<Value> = get.iter().map(|h| {
         let f = wm.get(&FactHandle::new(*h)).unwrap();
-        json!({"h": h, "type": f.fact_type, "a": f.data.get("a").and_then(|v| v.as_integer()).unwrap_or(-99)})
+        json!({"h": h, "type": f.fact_type, "a": halves(f.data.get("a"))})
     }).collect();
     json!({"get": get, "bytype": bytype, "all": all, "handles": handles, "wm": data})
 }
@@ -43,9 +63,9 @@ fn one_history(rng: &mut Rng) -> Value {
     let mut e = IncrementalEngine::new();
     let pure = rng.chance(1, 2);
     let mut ruledesc = vec![];
-    let with_r4 = rng.chance(1, 4);
+    let with_r4 = rng.chance(1, 3);
     for (name, ty, op, c, no_loop) in RULES {
-        if name == "r4" && !with_r4 {
+        if name == "r4" && !with_r4 || (name == "r5" || name == "r6") && rng.chance(1, 2) {
             continue;
         }
         let eff = if pure { 0 } else { rng.below(4) }; // 0,1 none; 2 mod; 3 retract
@@ -55,7 +75,7 @@ fn one_history(rng: &mut Rng) -> Value {
         let rule = TypedReteUlRule {
             name: name.to_string(),
             node,
-            priority: [0, 0, 5, -1][rng.below(4)],
+            priority: [0, 0, 5, -1, 9, 3][rng.below(6)],
             no_loop,
             action: Arc::new(move |facts: &mut TypedFacts, results: &mut ActionResults| {
                 let h = facts.get_fact_handle(ty).map(|h| h.id()).unwrap_or(0);
@@ -65,7 +85,7 @@ fn one_history(rng: &mut Rng) -> Value {
                     let p: Vec<&str> = k.split('.').collect();
                     if p.len() == 3 && p[2] == "a" {
                         if let Ok(id) = p[1].parse::<u64>() {
-                            snap.push(json!({"h": id, "type": p[0], "a": val.as_integer().unwrap_or(-99)}));
+                            snap.push(json!({"h": id, "type": p[0], "a": halves(Some(val))}));
                         }
                     }
                 }
@@ -80,26 +100,29 @@ fn one_history(rng: &mut Rng) -> Value {
         };
         e.add_rule(rule, vec![ty.to_string()]);
         let effname = ["none", "none", "mod", "retract"][eff];
-        ruledesc.push(json!({"name": name, "effect": effname, "v": v}));
+        ruledesc.push(json!({"name": name, "effect": effname, "v": 2 * v}));
     }
     let mut issued: Vec<u64> = vec![];
+    let mut types: Vec<&str> = vec![];
     let mut events: Vec<Value> = vec![];
     let nops = 3 + rng.below(6);
     for _ in 0..nops {
         let r = rng.below(10);
         if r < 4 && issued.len() < 6 {
             let ty = TYPES[[0, 0, 1, 2][rng.below(4)]];
-            let a = [0i64, 2, 3][rng.below(3)];
+            let (val, a) = gen_a(rng, ty);
             let mut t = TypedFacts::new();
-            t.set("a", a);
+            t.set("a", val);
             let h = e.insert(ty.to_string(), t).id();
             issued.push(h);
+            types.push(ty);
             events.push(json!({"ev": "insert", "type": ty, "a": a, "h": h, "ok": true, "views": views(&e, &issued)}));
         } else if r < 6 && !issued.is_empty() {
-            let h = issued[rng.below(issued.len())];
-            let a = [0i64, 2, 3][rng.below(3)];
+            let k = rng.below(issued.len());
+            let h = issued[k];
+            let (val, a) = gen_a(rng, types[k]);
             let mut t = TypedFacts::new();
-            t.set("a", a);
+            t.set("a", val);
             let ok = e.update(FactHandle::new(h), t).is_ok();
             events.push(json!({"ev": "update", "h": h, "a": a, "ok": ok, "views": views(&e, &issued)}));
         } else if r < 7 && !issued.is_empty() {
